@@ -117,7 +117,86 @@ def map_info(scr):
     return {"blue": blue, "cross": (best_r, best_c), "box": (top, bottom, left, right)}
 
 
+def run_expiry_case(case):
+    """Stats / table bookkeeping across expiry: aircraft time out (--filter-time 2) and come back"""
+    fails = []
+    rx = RXS[case["rx"] % len(RXS)]
+    n1 = 2 + case["n1"] % 4
+    keep = sorted({k % n1 for k in case["keep"]}) or [0]
+    n2 = case["n2"] % 4
+    back = sorted({b % n1 for b in case["back"]} - set(keep))
+    s = RadarSession("c18x", rows=ROWS, cols=COLS, lat=rx[0], lon=rx[1], opts=["--disable-heading"], filter_time=2)
+    try:
+        counts = {}
+        total = 0
+        most = 0
+
+        def hear(i, tag):
+            nonlocal total, most
+            a = ADDRS[i % len(ADDRS)]
+            f = F.ident(a, f"X{i}{tag}"[:8])
+            s.send(F.line(f))
+            k = f"{a:06x}"
+            if k not in counts:
+                total += 1
+                counts[k] = 0
+            counts[k] += 1
+            most = max(most, len(counts))
+            return f
+
+        last = None
+        for i in range(n1):
+            last = hear(i, "A")
+        if not s.wait_log_contains(last.hex(), 8.0):
+            raise Inconclusive("frames not processed")
+        # 4.6 s during which only the `keep` aircraft transmit: the others expire (threshold 2 s)
+        t0 = time.time()
+        r = 0
+        while time.time() - t0 < 4.6:
+            for i in keep:
+                last = hear(i, f"K{r}")
+            r += 1
+            time.sleep(0.5)
+        for k in [f"{ADDRS[i % len(ADDRS)]:06x}" for i in range(n1) if i not in keep]:
+            counts.pop(k, None)
+        if not s.wait_log_contains(last.hex(), 8.0):
+            raise Inconclusive("frames not processed")
+        for j in range(n2):
+            last = hear(n1 + j, "N")
+        for i in back:
+            last = hear(i, "B")
+        if not s.wait_log_contains(last.hex(), 8.0):
+            raise Inconclusive("frames not processed")
+        time.sleep(0.2)
+        s.press("F4")
+        if not s.wait_for(lambda: "total" in stats_values(s.fresh_screen()), 4.0):
+            raise Inconclusive("Stats tab did not appear")
+        sv = stats_values(s.fresh_screen())
+        if sv.get("total") != str(total):
+            fails.append(("C18/stats/total/expiry", f"Total Airplanes shows {sv.get('total')}; aircraft were newly added {total} times ({n1} first, some expired, {n2} new, {len(back)} heard again)"))
+        if sv.get("most") != str(most):
+            fails.append(("C18/stats/most/expiry", f"Most Airplanes shows {sv.get('most')}; the largest simultaneous count was {most}"))
+        s.press("F3")
+        if not s.wait_for(lambda: table_rows(s.fresh_screen()) is not None, 4.0):
+            raise Inconclusive("Airplanes tab did not appear")
+        time.sleep(0.15)
+        titles, rows = table_rows(s.fresh_screen())
+        got = {r[0].strip(): r[9].strip() for r in rows}
+        want = {k: str(v) for k, v in counts.items()}
+        if got != want:
+            fails.append(("C18/table/rows/expiry", f"Airplanes tab shows {got} (address: messages), the tracker holds {want}"))
+        if any(t != len(counts) for t in titles):
+            fails.append(("C18/table/title/expiry", f"titles show Airplanes{titles}, the tracker holds {len(counts)}"))
+        if not s.alive():
+            fails.append(("C18/terminated", f"radar terminated: {s.stderr()[-300:]}"))
+    finally:
+        s.close()
+    return fails
+
+
 def run_case(case):
+    if case.get("expiry_case"):
+        return run_expiry_case(case)
     fails = []
     rx, feed = scenario_frames(case)
     opts = ["--disable-heading", "--disable-track"]
@@ -358,6 +437,8 @@ def run_case(case):
 
 
 def classify(case):
+    if case.get("expiry_case"):
+        return ["expiry scenario (stats across time-outs)"], True
     quad = set()
     for ac in case["aircraft"]:
         if ac.get("position", True) and ac["km"] > 5:
@@ -399,6 +480,9 @@ def worker(args):
         "view": st.lists(view, max_size=3),
         "post_view": st.booleans(),
     })
+
+    expiry_s = st.fixed_dictionaries({"expiry_case": st.just(True), "rx": st.integers(0, len(RXS) - 1), "n1": st.integers(0, 3), "keep": st.lists(st.integers(0, 4), min_size=1, max_size=3), "n2": st.integers(0, 3), "back": st.lists(st.integers(0, 4), max_size=3)})
+    case_s = st.one_of(case_s, case_s, case_s, case_s, case_s, case_s, expiry_s)
 
     @seed(args.seed * 1000 + 18 * 7 + args.worker)
     @settings(max_examples=args.n, deadline=None, database=None, suppress_health_check=list(HealthCheck), phases=[Phase.generate, Phase.shrink], report_multiple_bugs=False)
